@@ -413,6 +413,13 @@ def run(ctx):
     from .c17 import check_send
 
     report.share(ctx, "C08.S1", check_send)
+    # a primary is answered only if it is framed, reassembled and dispatched: wake-ups of the receiver/dispatcher threads are
+    # not lost (shared with C04/C06/C09/C17) and a multi-block primary is complete with its last block (shared with C16.P3)
+    from ._dispatch import check_dispatcher
+    from .c16 import check_reassembly
+
+    check_dispatcher(ctx, "C08.S1", wakeups=True, consumers=False, reconnect=False)
+    report.share(ctx, "C08.S1", check_reassembly)
     check_stale_registrations(ctx)
     check_handle_stream_function(ctx)
     check_callbacks(ctx)
